@@ -187,6 +187,24 @@ uint64_t plan_shape_hash(const Plan &p) {
     }
     return h;
 }
+std::vector<std::string> g_known_hard;
+std::string op_sig(int kind, uint32_t f) {
+    std::string s = op_name(kind);
+    if (kind == P_INIT) { if (f & F_NULLCB) s += "+NULLCB"; if (f & F_SYSTEM) s += "+SYSTEM"; }
+    return s;
+}
+bool plan_avoid_known(Plan &p) {
+    bool any = false;
+    for (auto &kf : g_known_hard) {
+        size_t at = kf.find('@');
+        if (at == std::string::npos) continue;
+        bool hard = kf.find(":crash:") != std::string::npos || kf.find(":hang@") != std::string::npos || kf.find(":sanitizer") != std::string::npos;
+        if (!hard) continue;
+        std::string want = kf.substr(at + 1);
+        for (auto &t : p.tasks) for (auto &o : t.ops) if (o.kind != OP_NONE && op_sig(o.kind, o.flags) == want) { o.kind = OP_NONE; any = true; }
+    }
+    return any;
+}
 size_t plan_op_count(const Plan &p) { size_t n = 0; for (auto &t : p.tasks) n += t.ops.size(); return n; }
 
 // ---------------------------------------------------------------- memory
